@@ -16,6 +16,7 @@
    The code is modelled AS IT IS ([Cur]); each [fix_*] flag of [variant] switches
    one statement to the minimal fix of /verif/patches/fix-C07-*.diff. *)
 From Coq Require Import String NArith ZArith List Bool Lia.
+From Coq Require Import Orders Sorting.Mergesort.
 From HV Require Import Base.Bytes Base.Strto Gen.Tables.
 Import ListNotations.
 Local Open Scope N_scope.
@@ -52,7 +53,24 @@ Definition fix_width_overflow : bool := true.
 Definition fix_intlv_deeper : bool := true.
 (* 20f58c3: explicit index lists with a duplicate are ignored; false models the code before that fix *)
 Definition fix_dup_indexes : bool := true.
-Fixpoint dupb (l : list N) : bool := match l with [] => false | x :: r => existsb (N.eqb x) r || dupb r end.
+(* "the array has a duplicate": C sorts a copy (qsort) for explicit lists and marks a seen[] array for
+   interleavings; the model sorts (merge sort, n log n) and compares neighbours *)
+Module NLeb <: TotalLeBool.
+  Definition t := N.
+  Definition leb := N.leb.
+  Theorem leb_total : forall a b, N.leb a b = true \/ N.leb b a = true.
+  Proof. intros a b. destruct (N.leb_spec a b); [left; reflexivity|right; apply N.leb_le; lia]. Qed.
+End NLeb.
+Module NSort := Sort NLeb.
+Fixpoint adj_dup (l : list N) : bool :=
+  match l with
+  | x :: ((y :: _) as r) => (x =? y) || adj_dup r
+  | _ => false
+  end.
+Definition dupb (l : list N) : bool := adj_dup (NSort.sort l).
+(* fix-C07-synthetic-interleaving-permutation.diff: an interleaving must generate a permutation of 0..total-1
+   (before: only "no value >= total, no second 0"); false models the code before the fix *)
+Definition fix_perm_check : bool := true.
 
 Definition MAXD : N := HWLOC_SYNTHETIC_MAX_DEPTH.
 Definition U32 : N := 4294967296.
@@ -435,7 +453,7 @@ Definition interleave v s lv (attr length total : N) : out (list N) :=
   if U32 <=? total then Fault FHang       (* "unsigned j < total" never ends: not modelled *)
   else
     let a := gen_array (firstn (N.to_nat nr') loops') total in
-    if check_array a 0 total then Ret a else Rej.
+    if (if fix_perm_check then forallb (fun x => x <? total) a && negb (dupb a) else check_array a 0 total) then Ret a else Rej.
 
 Definition process_indexes v s lv (istr : option (N * N)) (total : N) : out (option (list N)) :=
   match istr with
